@@ -68,6 +68,7 @@ inductive Pc
   | fHead    -- cds_lfht_first: before `LD bucket_at(0)->next`
   | zIdle    -- resize: holding the resize mutex, between levels
   | zPart    -- partition phase of a level (spawn helpers / own part / join)
+  | zGp      -- before update_synchronize_rcu()
   | zSync    -- inside update_synchronize_rcu()
   | zFree    -- before cds_lfht_free_bucket_table(pfree)
   | hStart   -- helper thread created, before its read_lock
